@@ -19,7 +19,80 @@ type StrAlt struct {
 	S   string
 	Opq bool // opaque (formatting result etc.): content unknown
 }
-type StrVal struct{ Alts []StrAlt }
+// StrVal is a string given by an interned code term; Dom over-approximates the possible codes.
+type StrVal struct {
+	Code *Term
+	Dom  []uint32
+}
+
+const strW = 16
+
+var (
+	strTab []string
+	strOpq []bool
+	strIdx = map[string]uint32{}
+)
+
+func intern(s string, opq bool) uint32 {
+	k := s
+	if opq {
+		k = "\x00opq:" + s
+	}
+	if c, ok := strIdx[k]; ok {
+		return c
+	}
+	c := uint32(len(strTab))
+	strTab = append(strTab, s)
+	strOpq = append(strOpq, opq)
+	strIdx[k] = c
+	return c
+}
+
+func opaqueStr(why string) *StrVal {
+	c := intern("\x00opaque:"+why, true)
+	return &StrVal{Code: mkConst(strW, uint64(c)), Dom: []uint32{c}}
+}
+
+// Alts expands the code term into guarded concrete alternatives.
+func (s *StrVal) Alts() []StrAlt {
+	if s.Code.IsConst() {
+		c := uint32(s.Code.val)
+		return []StrAlt{{G: tTrue, S: strTab[c], Opq: strOpq[c]}}
+	}
+	out := make([]StrAlt, 0, len(s.Dom))
+	for _, d := range s.Dom {
+		g := mkEq(s.Code, mkConst(strW, uint64(d)))
+		if g.IsFalse() {
+			continue
+		}
+		out = append(out, StrAlt{G: g, S: strTab[d], Opq: strOpq[d]})
+	}
+	return out
+}
+
+// tighten recomputes Dom from the code term when it is a tree of constants.
+func (s *StrVal) tighten() *StrVal {
+	if s.Code.leaves > 0 && s.Code.leaves <= 64 {
+		seen := map[uint32]bool{}
+		var dom []uint32
+		var walk func(t *Term)
+		walk = func(t *Term) {
+			if t.op == OpIte {
+				walk(t.args[1])
+				walk(t.args[2])
+				return
+			}
+			c := uint32(t.val)
+			if !seen[c] {
+				seen[c] = true
+				dom = append(dom, c)
+			}
+		}
+		walk(s.Code)
+		s.Dom = dom
+	}
+	return s
+}
 
 // ---- pointers: union of locations; empty union = nil
 type PtrAlt struct {
@@ -270,7 +343,10 @@ func (in *Interp) zero(t types.Type) Value {
 	return &Opaque{"zero of " + t.String()}
 }
 
-func strConst(s string) *StrVal { return &StrVal{Alts: []StrAlt{{G: tTrue, S: s}}} }
+func strConst(s string) *StrVal {
+	c := intern(s, false)
+	return &StrVal{Code: mkConst(strW, uint64(c)), Dom: []uint32{c}}
+}
 
 func ptrTo(l *Loc) *PtrVal { return &PtrVal{Alts: []PtrAlt{{G: tTrue, L: l}}} }
 
@@ -315,24 +391,30 @@ func (in *Interp) store(l *Loc, g *Term, v Value) {
 // ---- union normalisation and merging
 
 func normStr(alts []StrAlt) *StrVal {
-	idx := map[string]int{}
-	var out []StrAlt
-	for _, a := range alts {
+	var code *Term
+	var dom []uint32
+	seen := map[uint32]bool{}
+	for i := len(alts) - 1; i >= 0; i-- {
+		a := alts[i]
 		if a.G.IsFalse() {
 			continue
 		}
-		k := a.S
-		if a.Opq {
-			k = "\x00opq"
+		c := intern(a.S, a.Opq)
+		if !seen[c] {
+			seen[c] = true
+			dom = append(dom, c)
 		}
-		if i, ok := idx[k]; ok {
-			out[i].G = mkOr(out[i].G, a.G)
+		ct := mkConst(strW, uint64(c))
+		if code == nil {
+			code = ct
 		} else {
-			idx[k] = len(out)
-			out = append(out, a)
+			code = mkIte(a.G, ct, code)
 		}
 	}
-	return &StrVal{Alts: out}
+	if code == nil {
+		return strConst("")
+	}
+	return (&StrVal{Code: code, Dom: dom}).tighten()
 }
 
 func normPtr(alts []PtrAlt) *PtrVal {
@@ -434,15 +516,7 @@ func identical(a, b Value) bool {
 		return false
 	case *StrVal:
 		y, ok := b.(*StrVal)
-		if !ok || len(x.Alts) != len(y.Alts) {
-			return false
-		}
-		for i := range x.Alts {
-			if x.Alts[i] != y.Alts[i] {
-				return false
-			}
-		}
-		return true
+		return ok && x.Code == y.Code
 	case *PtrVal:
 		y, ok := b.(*PtrVal)
 		if !ok || len(x.Alts) != len(y.Alts) {
@@ -602,17 +676,23 @@ func (in *Interp) merge(g *Term, a, b Value) Value {
 		if !ok {
 			return &Opaque{"merge str/opaque"}
 		}
-		if identical(x, y) {
+		if x.Code == y.Code {
 			return x
 		}
-		alts := make([]StrAlt, 0, len(x.Alts)+len(y.Alts))
-		for _, p := range x.Alts {
-			alts = append(alts, StrAlt{mkAnd(g, p.G), p.S, p.Opq})
+		dom := append([]uint32(nil), x.Dom...)
+		for _, d := range y.Dom {
+			found := false
+			for _, e := range x.Dom {
+				if e == d {
+					found = true
+					break
+				}
+			}
+			if !found {
+				dom = append(dom, d)
+			}
 		}
-		for _, p := range y.Alts {
-			alts = append(alts, StrAlt{mkAnd(ng, p.G), p.S, p.Opq})
-		}
-		return normStr(alts)
+		return (&StrVal{Code: mkIte(g, x.Code, y.Code), Dom: dom}).tighten()
 	case *PtrVal:
 		y, ok := b.(*PtrVal)
 		if !ok {
@@ -788,6 +868,24 @@ func (v *SliceVal) length() *Term {
 	return r
 }
 
+// maxLen is a sound upper bound of the length: interval bound capped by the backing arrays.
+func (v *SliceVal) maxLen() int {
+	m := 0
+	for _, a := range v.Alts {
+		n := len(a.Arr.kids) - a.Off
+		if n < 0 {
+			n = 0
+		}
+		if a.Len.hi < uint64(n) {
+			n = int(a.Len.hi)
+		}
+		if n > m {
+			m = n
+		}
+	}
+	return m
+}
+
 func (v *SliceVal) capacity() *Term {
 	r := mkConst(64, 0)
 	for i := len(v.Alts) - 1; i >= 0; i-- {
@@ -813,19 +911,14 @@ func (in *Interp) eq(a, b Value) *Term {
 			in.unsupported(tTrue, "eq str/opaque")
 			return tFalse
 		}
-		var gs []*Term
-		for _, p := range x.Alts {
-			for _, q := range y.Alts {
-				if p.Opq || q.Opq {
-					in.unsupported(mkAnd(p.G, q.G), "comparison of opaque string")
-					continue
-				}
-				if p.S == q.S {
-					gs = append(gs, mkAnd(p.G, q.G))
+		for _, sv := range []*StrVal{x, y} {
+			for _, d := range sv.Dom {
+				if strOpq[d] {
+					in.unsupported(mkEq(sv.Code, mkConst(strW, uint64(d))), "comparison of opaque string")
 				}
 			}
 		}
-		return mkOr(gs...)
+		return mkEq(x.Code, y.Code)
 	case *PtrVal:
 		y, ok := b.(*PtrVal)
 		if !ok {
@@ -923,8 +1016,8 @@ func concreteKey(v Value) (string, bool) {
 			return fmt.Sprintf("i%d:%d", x.w, x.val), true
 		}
 	case *StrVal:
-		if len(x.Alts) == 1 && x.Alts[0].G.IsTrue() && !x.Alts[0].Opq {
-			return "s:" + x.Alts[0].S, true
+		if x.Code.IsConst() && !strOpq[x.Code.val] {
+			return "s:" + strTab[x.Code.val], true
 		}
 	case *PtrVal:
 		if len(x.Alts) == 0 {
@@ -980,7 +1073,7 @@ func valString(v Value) string {
 		return x.String()
 	case *StrVal:
 		var p []string
-		for _, a := range x.Alts {
+		for _, a := range x.Alts() {
 			if a.G.IsTrue() {
 				p = append(p, fmt.Sprintf("%q", a.S))
 			} else {
